@@ -34,7 +34,7 @@ def main():
     rep.assumptions += [
         "virtual time: computation is instantaneous relative to timers",
         "tier 1: KCP+smux are replaced by a stop-and-wait ARQ driver (retransmit every 1 s of virtual time); the proxy is a transparent relay preserving message boundaries client->server; the pion data channel, real proxies under SIGKILL/SIGSTOP and KCP/smux internals are not covered",
-        "a frozen carrier is closed after 20 s by a stand-in for the client's staleness check",
+        "frozen carriers are abandoned by the client's real checkForStaleness (started for every peer as connect() does; lastReceive is refreshed on message arrival as pion's OnMessage callback does)",
         "payloads: 1 and 1400 bytes up, 58 and 59 bytes down (63/64 bytes on the wire: both sides of the 1/2-byte length-prefix boundary)",
         "SendQueue sections of ClientMap.lock declared commuting (argument in harness/serverlib_sched/c05_test.go)",
     ]
